@@ -56,6 +56,19 @@ func genPipe(r *rng.R, idx int, maxN int, focus int, allowQuit bool) pipeCase {
 		}
 		v := grammar.Generate(spec, r, tok)
 		pr := pipeReq{Kind: "valid", V: v, Req: v.Value()}
+		if r.Chance(1, 60) {
+			// a request with one large argument (around 64 KiB and beyond) in the middle of the pipeline
+			size := rng.Pick(r, []int{65533, 65534, 65535, 65536, 65537, 70000, 131072, 200000})
+			name := rng.Pick(r, []string{"SET", "ECHO", "APPEND", "LPUSH"})
+			big := string(r.From([]byte("abcdefgh\r\n"), size))
+			if name == "ECHO" {
+				pr = pipeReq{Kind: "large-argument", Req: resp.Cmd(name, big)}
+			} else {
+				pr = pipeReq{Kind: "large-argument", Req: resp.Cmd(name, tok+":k", big)}
+			}
+			pc.Reqs = append(pc.Reqs, pr)
+			continue
+		}
 		if v.Quit {
 			pr.Kind = "quit"
 		} else {
